@@ -89,6 +89,8 @@ def main():
                 print(c, 'exit', rc, viol[:2], what[:1])
         finally:
             sh(['git', '-C', '/repo', 'checkout', '--', '.'])
+            # the evidence files written while the change was applied describe the changed tree
+            sh(['git', '-C', VERIF, 'checkout', '--', 'evidence'])
     meta['check_results'] = results
     meta['caught_by'] = sorted(c for c, r in results.items() if r['exit'] == 1)
     d = os.path.join(VERIF, 'seeded', sid)
